@@ -38,6 +38,12 @@ Theorem c15_mvals_spec :
 Proof. exact qn_mvals_spec. Qed.
 Print Assumptions c15_mvals_spec.
 
+(** the scaling of fftfreq(n, 1/n), results * (1/(n*(1/n))), is the identity in exact arithmetic (Qc): the table holds the integer mode numbers *)
+Theorem c15_fftfreq_scale_exact :
+  forall (n : positive) (i : nat), let nq := Q2Qc (inject_Z (Z.pos n)) in (Q2Qc (inject_Z (qn_mode (Pos.to_nat n) i)) * (1 / (nq * (1 / nq))))%Qc = Q2Qc (inject_Z (qn_mode (Pos.to_nat n) i)).
+Proof. exact qnq_mvals_scaled. Qed.
+Print Assumptions c15_fftfreq_scale_exact.
+
 (** even n = 2h: 0,1,...,h-1,-h,...,-1 *)
 Theorem c15_mvals_even :
   forall h i : nat, 0 < h -> i < 2 * h -> nth i (qn_fftfreq (2 * h)) 0%Z = (if i <? h then Z.of_nat i else (Z.of_nat i - Z.of_nat (2 * h))%Z).
